@@ -72,6 +72,60 @@ func newTaint(t *tape.Tape, tier Tier, res *Result, alpha gen.Alphabet, allowUnk
 	}
 	res.Desc.Routes = []string{routeString(append([]int{0}, ts.route...))}
 	ts.sim.DupNum = 0
+	if alpha == gen.Hostile && t.Bool(1, 3) {
+		// a peer controls the bytes on the wire: at one drawn hop one string
+		// field of one wire node (message/prefix, a reportable string, the
+		// type name) is replaced by a hostile string
+		faultHop := 1 + t.Draw(3)
+		ts.sim.Mutate = func(m *world.Msg) []byte {
+			if m.Hop != faultHop || m.Flow != 0 {
+				return m.Data
+			}
+			enc, err := world.ParseWire(m.Data)
+			if err != nil {
+				return m.Data
+			}
+			var nodes []*world.WireNode
+			world.WalkWire(enc, false, func(w *world.WireNode) { nodes = append(nodes, w) })
+			w := nodes[t.Draw(len(nodes))]
+			hs := hostileWire[t.Draw(len(hostileWire))]
+			var what string
+			choice := t.Draw(3)
+			if choice == 0 && strings.HasSuffix(w.Family(), "barriers.barrierErr") {
+				// by protocol this field *is* a redactable string (the
+				// decoder of knowing receivers casts it); a malformed one is
+				// not an "input string" in the sense of C03/C06
+				choice = 1
+			}
+			switch choice {
+			case 0:
+				if w.Wrapper != nil {
+					w.Wrapper.Message = hs
+				} else {
+					w.Leaf.Message = hs
+				}
+				what = "message"
+			case 1:
+				d := w.Details()
+				if len(d.ReportablePayload) > 0 {
+					d.ReportablePayload[t.Draw(len(d.ReportablePayload))] = hs
+				} else {
+					d.ReportablePayload = []string{hs}
+				}
+				what = "reportable"
+			default:
+				w.Details().OriginalTypeName = hs
+				what = "typename"
+			}
+			out, merr := enc.Marshal()
+			if merr != nil {
+				return m.Data
+			}
+			ts.sim.Stats.Faults["string=hostile("+what+")"]++
+			res.Desc.Faults = append(res.Desc.Faults, fmt.Sprintf("string=hostile(%s)@hop%d:%s(%s)", what, m.Hop, w.Path, world.ShortKey(w.Family())))
+			return out
+		}
+	}
 	if p == "" && len(ts.route) > 0 {
 		ts.sim.Send(0, 1, []int{0}, ts.route, m1)
 	} else if p != "" {
